@@ -2,6 +2,7 @@
 from __future__ import annotations
 
 from . import c16_mask as M
+from . import c16_rows as RW
 from .c16_interp import Interp, NONE, is_const, mem, op, show, free_syms
 
 UTIL = "pyyeti/cla/_utilities.py"
@@ -204,7 +205,36 @@ def _extrema(ctx, ncol):
     pins = {("attr", ("attr", ("s", mm), "ext"), "shape"): ("tup", ("s", "<rows>"), ("c", ncol))}
     I = Interp(ctx, UTIL, "extrema", kinds={mxc: "list", mnc: "list", cnum: "scalar"}, noinline={"nan_argmax", "nan_argmin"}, pins=pins,
                cond=_some_rows)
-    return fn, I, good_paths(ctx, I), (cur, mm, mxc, mnc, cnum)
+    paths = good_paths(ctx, I)
+    for P in paths:
+        P.events = [_masked_store(P, e) for e in P.events]
+    return fn, I, paths, (cur, mm, mxc, mnc, cnum)
+
+
+def _masked_store(P, e):
+    """`T[:, c] = np.where(m, A, T[:, c])` (or `np.where(~m, T[:, c], A)`) writes A into the rows selected by m and leaves the others as they
+    are: it is the masked store `T[m, c] = A[m]`, and is presented to the rules as that store"""
+    from .c16_interp import Event
+    if e.kind != "store" or e.aug or e.index[0] != "tup" or len(e.index) != 3 or e.index[1] != FULL:
+        return e
+    v = e.value
+    if not (v[0] == "call" and v[1] == "np.where" and len(v[2]) == 3 and not v[3]):
+        return e
+    m, a, b = v[2]
+    old = lambda t: t[0] in ("idx", "ld") and t[1] == e.target and t[2] == e.index  # noqa
+    if old(b) and not old(a):
+        new = a
+    elif old(a) and not old(b) and m[0] == "op" and m[1] == "inv" and len(m) == 3:
+        m, new = m[2], b
+    else:
+        return e
+    if new[0] in ("idx", "ld") and new[2][0] == "tup" and len(new[2]) == 3 and new[2][1] == FULL:
+        new = ("idx", new[1], ("tup", m, new[2][2]))            # A[:, k] at the rows m
+    elif not (is_const(new) or is_nan(new)):
+        new = ("idx", new, m)
+    r = Event("store", **{k: getattr(e, k) for k in Event.__slots__[1:]})
+    r.index, r.value = ("tup", m, e.index[2]), new
+    return r
 
 
 def _some_rows(key, P):
@@ -379,8 +409,11 @@ def r1_roles(ctx):
               nontrivial=False)
         A.flush(fn)
     fn = ctx.src.func(UTIL, "extrema")
-    ctx.check(nsel >= 8 and nrec >= 16, f"extrema: rule bound to {nsel} selector evaluations and {nrec} per-case record stores over all paths", fn,
-              nontrivial=False)
+    msg = f"extrema: rule bound to {nsel} selector evaluations and {nrec} per-case record stores over all paths"
+    if nsel >= 8 and nrec >= 16:
+        ctx.ok(msg, fn, None, False)
+    else:
+        ctx.error(msg, fn, "the compare-and-replace blocks were not recognised")
     _store_maxmin(ctx)
     _frf_minus(ctx)
 
@@ -697,63 +730,55 @@ def r2_mirror(ctx):
 
 
 def _maxmin(ctx):
+    """every row with a valid sample gets its own NaN-aware extremes and their abscissae: decided per row world (c16_rows) - a row of numbers,
+    a row with NaNs and numbers - so that argmax spellings, tables built in several steps, np.where / masked stores (rows without a valid
+    sample carried through as NaN) are values, and a mask that is true for a row with a valid sample makes the result provably wrong"""
     fn = ctx.src.func(UTIL, "maxmin")
     resp, x = params(fn)[:2]
-    I = Interp(ctx, UTIL, "maxmin")
+    I = Interp(ctx, UTIL, "maxmin", loadevents=True)
     paths = good_paths(ctx, I)
     A = Agg(ctx)
     A.req("maxmin: a path returns the table", bool(paths), fn, nontrivial=False)
     R, X = ("s", resp), ("s", x)
+    k_tab = "maxmin: .ext and .ext_x are two-column tables (max, min)"
+    seen = set()
     for P in paths:
-        ext, ext_x = P.norm(P.field(P.ret, "ext")), P.norm(P.field(P.ret, "ext_x"))
-
-        def cols(t):
-            """the two columns of a table built from two vectors (several spellings)"""
-            pair = lambda c: (c[2][0][1], c[2][0][2]) if (c[0] == "call" and len(c[2]) >= 1 and c[2][0][0] in ("tup", "lst") and len(c[2][0]) == 3) else None  # noqa
-            if t[0] == "new":
-                t = t[2]
-            if t[0] == "call" and t[1] == "np.column_stack" and len(t[2]) == 1:
-                return pair(t)
-            if t[0] == "call" and t[1] == "np.stack" and (t[2][1:] in ((("c", 1),), (("c", -1),)) or t[3] in ((("axis", ("c", 1)),), (("axis", ("c", -1)),))):
-                return pair(t)
-            if t[0] == "attr" and t[2] == "T" and t[1][0] in ("call", "new"):
-                c = t[1][2] if t[1][0] == "new" else t[1]
-                if c[0] == "call" and c[1] in ("np.vstack", "np.array", "np.row_stack", "np.stack", "np.asarray") and len(c[2]) == 1 and not c[3]:
-                    return pair(c)
-            if t[0] == "idx" and t[1] == ("g", "np.c_") and t[2][0] == "tup" and len(t[2]) == 3:
-                return t[2][1], t[2][2]
-            return None
-
-        ce, cx = cols(ext), cols(ext_x)
-        if ce is None or cx is None:
-            A.req("maxmin: .ext and .ext_x are two-column tables (max, min)", None, fn, {"ext": show(ext), "ext_x": show(ext_x)})
-            continue
-        for role, (val, absc) in enumerate(zip(ce, cx)):
-            rn, nanarg, plain, nanval = (("max", "np.nanargmax", ("np.argmax", ".argmax"), "np.nanmax"),
-                                         ("min", "np.nanargmin", ("np.argmin", ".argmin"), "np.nanmin"))[role]
-            # abscissa = x[position]
-            if not (absc[0] == "idx" and absc[1] == X):
-                A.req(f"maxmin: column {role} of .ext_x is `x` at the position of the row {rn}", None, fn, show(absc))
+        ext, ext_x = P.field(P.ret, "ext"), P.field(P.ret, "ext_x")
+        for w in (RW.NUM, RW.MIX):
+            try:
+                E = RW.RowEval(P, R, X, w)
+                if not E.feasible():
+                    continue            # a test on the whole matrix made on this path excludes such rows
+                te, tx = E.table(ext), E.table(ext_x)
+            except RW.Unknown as ex:
+                A.req(k_tab, None, fn, {"not understood": str(ex), "ext": show(P.norm(ext))[:300], "ext_x": show(P.norm(ext_x))[:300]})
+                seen.add(w)
                 continue
-            pos = absc[2]
-            axis1 = lambda c: (len(c[2]) == 2 and c[2][1] in (("c", 1), ("c", -1)) and not c[3]) or \
-                (len(c[2]) == 1 and c[3] in ((("axis", ("c", 1)),), (("axis", ("c", -1)),)))  # noqa  (response is 2-D: axis -1 is axis 1)
-            good = pos[0] == "call" and pos[1] == nanarg and pos[2][:1] == (R,) and axis1(pos)
-            bad = pos[0] == "call" and (pos[1] in plain or pos[1] in ("np.nanargmax", "np.nanargmin", "np.argmax", "np.argmin", ".argmax", ".argmin"))
-            A.req(f"maxmin: the abscissa of the row {rn} is `x` at {nanarg}(response, axis=1) - NaN-aware, first occurrence on ties", good if (good or bad) else None,
-                  fn, show(pos))
-            # value is read at that very position (or is the NaN-aware extreme itself)
-            ok = val == ("idx", R, ("tup", ("call", "np.arange", (P.norm(_rows(P, resp)),), ()), pos)) or \
-                (val[0] == "idx" and val[1] == R and val[2][0] == "tup" and len(val[2]) == 3 and val[2][2] == pos and val[2][1][0] == "call" and val[2][1][1] == "np.arange")
-            alt = val[0] == "call" and val[1] == nanval and val[2][:1] == (R,) and axis1(val) and good
-            known_bad = val[0] == "idx" and val[1] == R
-            A.req(f"maxmin: column {role} of .ext is the response at the position whose abscissa is reported ({rn})", True if (ok or alt) else (False if known_bad or not good else None),
-                  fn, {"value": show(val), "position": show(pos)})
+            seen.add(w)
+            for role in (0, 1):
+                rn, nanarg = (("max", "np.nanargmax"), ("min", "np.nanargmin"))[role]
+                a, v = tx[1 + role], te[1 + role]
+                det = {"for": RW.WORLD_TEXT[w], "value": _rowtext(v), "abscissa": _rowtext(a)}
+                if E.hits:
+                    det["row replaced / overwritten because this mask is true for such a row"] = sorted({m + " -> " + c for m, c in E.hits})
+                A.req(f"maxmin: the abscissa of the row {rn} is `x` at {nanarg}(response, axis=1) - NaN-aware, first occurrence on ties", a == ("x", rn), fn, det)
+                want = a[1] if a[0] == "x" else rn
+                A.req(f"maxmin: column {role} of .ext is the response at the position whose abscissa is reported ({rn})", v == ("val", want), fn, det)
+    if paths and seen != {RW.NUM, RW.MIX}:
+        A.req("maxmin: a returning path accepts rows of numbers and rows with NaN samples", None, fn, sorted(seen))
     A.flush(fn)
 
 
-def _rows(P, resp):
-    return ("idx", ("call", "np.shape", (("s", resp),), ()), ("c", 0))
+def _rowtext(v):
+    if v[0] == "val":
+        return f"the row's NaN-aware {v[1]}"
+    if v[0] == "x":
+        return f"x at the position of the row's NaN-aware {v[1]}"
+    if v[0] == "const":
+        return f"the constant {v[1]}"
+    if v[0] == "bad":
+        return v[1]
+    return str(v)
 
 
 # ------------------------------------------------------------------------------------------------------------------------- R3
